@@ -46,6 +46,14 @@ def tested_names(repo):
                 if isinstance(op, ast.Eq) and isinstance(c, ast.Constant) and isinstance(c.value, str): out.append(c.value)
                 if isinstance(op, ast.In) and isinstance(c, (ast.List, ast.Tuple)):
                     out += [e.value for e in c.elts if isinstance(e, ast.Constant) and isinstance(e.value, str)]
+                if isinstance(op, ast.In) and isinstance(c, ast.Name):
+                    # membership in a module-level literal table of names
+                    for st_ in repo.module("speckit/analysis.py").body:
+                        tg = st_.targets[0] if isinstance(st_, ast.Assign) and len(st_.targets) == 1 else st_.target if isinstance(st_, ast.AnnAssign) else None
+                        v_ = getattr(st_, "value", None)
+                        if isinstance(tg, ast.Name) and tg.id == c.id:
+                            if isinstance(v_, ast.Dict): out += [k.value for k in v_.keys if isinstance(k, ast.Constant) and isinstance(k.value, str)]
+                            elif isinstance(v_, (ast.Tuple, ast.List, ast.Set)): out += [e.value for e in v_.elts if isinstance(e, ast.Constant) and isinstance(e.value, str)]
     seen = []
     for x in out:
         if x not in seen: seen.append(x)
